@@ -478,6 +478,18 @@ def fam_big(log, rng, n):
         log.goal("big", rel("greater", R, b2("real_divide", R, w, num(R, 3)), num(R, a - 1)))
         log.goal("big", rel("less", R, b2("plus", R, C("abs", R, R)(num(R, a)), num(R, 1)), num(R, a + 1)))
         log.goal("big", rel("greater", R, b2("plus", R, C("abs", R, R)(num(R, a)), num(R, 1)), num(R, a)))
+    # PRELUDE histories: an approximate evaluation (the factor exp 0 makes the evaluators fall back to floats; such a goal is not
+    # judged) of a power BEFORE the exact evaluation of the same power in the same process -- a step must not reuse what an
+    # earlier, approximate step computed
+    for base, ex in ((3, 40), (7, 30), (5, 35)):
+        fl = b2("times", R, num(R, base), C("exp", R, R)(num(R, 0)))
+        log.goal("prelude", rel("greater_eq", R, C("power", R, "nat", R)(fl, num("nat", ex)), num(R, 1)))
+        pw = C("power", R, "nat", R)(num(R, base), num("nat", ex))
+        exact = base ** ex
+        for k in RELS:
+            log.goal("prelude", rel(k, R, pw, num(R, exact)))
+            log.goal("prelude", rel(k, R, pw, num(R, int(float(exact)))))
+        log.goal("prelude", rel("equals", R, b2("plus", R, pw, num(R, 1)), pw))
 
 
 SURD_ONLY = ("const_inequality", "real_compare", "real_const_eq", "real_const_ineq", "real_eval")
